@@ -291,8 +291,9 @@ def judge(q, tag, e, ev, kept, kept_kind, save_ok=True):
             marks(v, p, "returned metadata", None)
         if kept is not None:
             marks(v, kept, kept_kind, p if failed else None)
-    elif kept is not None and not (kept["status"] == "expired" and e["uncached"]):
-        # (a volatile / cache-disabled result is not kept: there is no record, or one that says `expired`)
+    elif kept is not None and not (kept["status"] == "expired" and e["uncached"] and kept_kind.startswith("cached")):
+        # (a volatile / cache-disabled result is not kept by the CACHE: there is no record, or one that says `expired`; a result saved
+        # under a store key is kept whatever its cacheability)
         if kept["line"] != p["line"] or kept["dc"] != p["dc"] or kept["version"] != p["version"]:
             diff = {k: (kept[k], p[k]) for k in p if k not in ("line", "errs", "cerrs") and kept[k] != p[k]}
             v("kept-disagrees-" + kept_kind.split(" ")[0], "the %s differs from the returned metadata: %r" % (kept_kind, diff))
@@ -361,7 +362,8 @@ def run_task_(task):
             name, factory, _ = EP.cache_configs(tmp)[cfg]
             cache = factory()
         else:
-            cache, name = MemoryCache(), "store-" + cfg
+            # store_key evaluations: with a MemoryCache, and ("-nc") with the default NoCache (where un-caching a volatile result fails)
+            cache, name = (NoCache() if cfg.endswith("-nc") else MemoryCache()), "store-" + cfg
         EP.set_global(cache, dflt)
         e = expect(q, dflt)
         if e is None:
@@ -384,7 +386,7 @@ def run_task_(task):
             tag = name if mode == "nocache" else "%s:%s" % (name, rnd)
             if mode == "store":
                 ext = e.get("extension") if e["kind"] == "value" else None
-                store = MemoryStore() if cfg == "mem" else FileStore(os.path.join(tmp, "st-" + rnd))
+                store = MemoryStore() if cfg.startswith("mem") else FileStore(os.path.join(tmp, "st-" + rnd))
                 # the value is serialised in the format of the key's extension (as for recipes, C08): no extension in the query -> none in the key
                 skey = "res/x." + ext if ext else "res/x"
                 ev = evaluate_once(q, store, skey)
@@ -509,8 +511,8 @@ def gen_cases(ctx, quick):
     for ci in range(ncfg):
         tasks += [("cache", ci, q, {}, "dict") for q in DICT_QUERIES[:3]]
         tasks += [("seq", ci, q, {}, fam) for fam, q in rng.sample(general + attrs, 4 if quick else 40) + [("general", "hello-x/cat-y"), ("attributes", "one/attr1")]]
-    for skind in ("mem", "file"):
-        n = 110 if quick else 1500
+    for skind in ("mem", "file", "mem-nc", "file-nc"):
+        n = (110 if quick else 1500) // (2 if skind.endswith("-nc") else 1)
         pick = rng.sample(fn_all, min(len(fn_all), n // 2)) + rng.sample(general, n // 6) + rng.sample(links, n // 6) + rng.sample(failing, n // 6) + [("no-action", "x.txt")]
         tasks += [("store", skind, q, {}, fam) for fam, q in pick]
     return tasks
@@ -617,7 +619,7 @@ def search(ctx, broken, disagreements):
     pool = ([("general", H.g_query(rng, 3, special=0.25)) for _ in range(3000)] + gen_filename_queries(rng, None) + gen_attr_chains(rng, 800) +
             gen_links_subs(rng, 800) + gen_failing(ctx, 800))
     tasks = [("nocache", None, q, {}, fam) for fam, q in pool] + [("cache", rng.randrange(16), q, {}, fam) for fam, q in rng.sample(pool, 1500)]
-    tasks += [("store", rng.choice(["mem", "file"]), q, {}, fam) for fam, q in rng.sample(pool, 500)]
+    tasks += [("store", rng.choice(["mem", "file", "mem-nc", "file-nc"]), q, {}, fam) for fam, q in rng.sample(pool, 500)]
     results = common.pmap(run_task, [t[:4] for t in tasks])
     account(ctx, tasks, results)
     if not ctx.violations:
